@@ -351,6 +351,21 @@ fn main() {
                 let span = full_span(&tail);
                 let as_fn = s(item, "as_fn").unwrap_or(name.clone());
                 let mut body: Block = parse_quote! { { #tail } };
+                if let Some(after) = s(item, "after") {
+                    // everything after `let <after> = ..;` belongs to the epilogue (not only the tail expression)
+                    let mut cut = None;
+                    for (i, st) in block.stmts.iter().enumerate() {
+                        if let Stmt::Local(l) = st {
+                            let mut p = &l.pat;
+                            if let Pat::Type(t) = p { p = &t.pat; }
+                            if let Pat::Ident(pi) = p { if pi.ident == after { cut = Some(i); } }
+                        }
+                    }
+                    match cut {
+                        Some(i) => { body.stmts = block.stmts[i + 1..].to_vec(); }
+                        None => fail("anchor-lost", format!("{}: no `let {} = ..` in fn {}", name, after, fsig.ident)),
+                    }
+                }
                 rules::apply_all(&mut body, item, &mut fired, &name);
                 rules::mark_ret(&mut body, &as_fn, false);
                 let mut params: Vec<TokenStream> = vec![];
